@@ -212,7 +212,7 @@ class Program:
                     return self._pick(c, ci)
             return None
         # free function: exact or unique suffix
-        flat = strip_generics(t)
+        flat = re.sub(r'::+', '::', strip_generics(t)).strip(':')
         cands = self.free.get(flat.split('::')[-1], [])
         good = [f for f in cands if f.name == flat or f.name.endswith('::' + flat) or flat.endswith('::' + f.name)]
         if len(good) == 1:
